@@ -21,8 +21,12 @@ def gen_tyarg(rng, w, depth=1):
     r = rng.random()
     if depth <= 0 or r < 0.5:
         return [0, rng.choice(cls_ids + [LIST, DICT])]
-    if r < 0.8:
+    if r < 0.7:
         return [1, LIST, gen_tyarg(rng, w, depth - 1)]
+    if r < 0.85:
+        # tuple[...] with 1-3 arguments: different arities of one origin, often sharing a prefix
+        base = [[0, c] for c in rng.sample(cls_ids, min(3, len(cls_ids)))]
+        return [1, TUPLE] + base[: rng.randint(1, 3)]
     return [1, DICT, gen_tyarg(rng, w, depth - 1), gen_tyarg(rng, w, depth - 1)]
 
 
@@ -39,6 +43,8 @@ def py_obj(w, e, flavour=False):
     if e[0] == 0:
         return w.classes[e[1]]
     args = tuple(py_obj(w, a) for a in e[2:])
+    if e[1] == TUPLE:
+        return typing.Tuple[args] if flavour else tuple[args]
     if e[1] == LIST:
         return typing.List[args[0]] if flavour else list[args[0]]
     return typing.Dict[args[0], args[1]] if flavour else dict[args[0], args[1]]
@@ -49,6 +55,9 @@ def gen_prog(rng):
     w = World(spec)
     npos = rng.choice([1, 1, 2])
     tpos = rng.randrange(npos)
+    vary_names = rng.random() < 0.4
+    if vary_names and npos == 2:
+        tpos = 1
     defs = []
     cls_ids = [0, 2, 3] + w.user_ids()
     for i in range(rng.randint(2, 6)):
@@ -64,7 +73,11 @@ def gen_prog(rng):
                     pos.append([0, 0])
             else:
                 pos.append([0, rng.choice(cls_ids)])
-        defs.append({"id": i, "pos": pos, "npos_req": npos, "kw": [], "prio": rng.choice([0, 0, 0, 1])})
+        d = {"id": i, "pos": pos, "npos_req": npos, "kw": [], "prio": rng.choice([0, 0, 0, 1])}
+        if vary_names and npos == 2:
+            # position 0 is named differently by different methods: it becomes strictly positional in the entry point
+            d["names"] = [rng.choice(["a0", "b0"]), "a1"]
+        defs.append(d)
     if not any(d["pos"][tpos][0] == 1 for d in defs):
         defs[0]["pos"][tpos] = [1, TYPE, [0, rng.choice(cls_ids)]]
     inst = [c for c in cls_ids if w.instantiable(c)]
